@@ -29,7 +29,7 @@ SAME = 1e-9           # two things happen at the same virtual instant
 HORIZON = 110.0       # virtual seconds after T0 in which every scripted deadline lies
 PSEUDO_DEADLINE = 4.0  # anchor used for "deadline" steps that target a request without a timer
 ARRIVE_LAT = 0.125    # exactly representable one-way latency for replies that must ARRIVE at an instant
-N_RANDOM = {'quick': 1800, 'thorough': 40000}
+N_RANDOM = {'quick': 1800, 'thorough': 80000}
 
 RULE = (
     "One case = one simulated world (real SoulSeekClient 'me' logged in to the scripted server, scripted peers bob and "
